@@ -7,7 +7,7 @@ TRUSTED_BASE = [
     "translator tools/extract_consts.py (regex extraction of constants/tables into BtcModel/Gen)",
 ]
 
-HOOK_COMMITS = ["5384d917", "0f73256d", "53d65f90", "1047dece"]
+HOOK_COMMITS = ["5384d917", "0f73256d", "53d65f90", "1047dece", "516900e7"]
 
 NOT_CLAIMED = {}
 
@@ -28,6 +28,72 @@ SYNC_RULE = ("sync stream: per case a fresh regtest canister (threshold 1-4, def
              "A case is distinct by the hash of its message kinds and budgets.")
 
 PROPS = {
+    "C03": {
+        "streams": [{"name": "ledger", "quick": 160, "thorough": 1600}, {"name": "sync", "quick": 80, "thorough": 800}],
+        "rule": LEDGER_RULE + " After every ingestion opportunity the line `advance` records how many anchors were popped, whether the new anchor lies on the chain served before, and whether a stable child is still pending.",
+        "explanation": "theorems: get_stable_child = some i iff child i satisfies the difficulty rule or (testnet/regtest) the depth rule, both directions, = none iff no child does, uniqueness; the selected child is always the "
+                       "second block of the served chain (all networks, both rules - after the F12 fix); accumulated difficulty of the main chain = max root-to-leaf difficulty; pop/peek/push facts at the unstable-blocks level.",
+        "technique": "Lean 4 theorems (sorting characterisation + mutual induction over the tree: decision = declarative rule; new anchor on served chain) + differential correspondence with per-ingestion finality lines",
+        "level_text": "Machine-checked rule equivalence for all trees, thresholds, bounds and networks; the depth bound function enters as a parameter (its f64 computation is mirrored in the driver and compared on every state).",
+        "level_note": "Trusted: Lean kernel, harness, translator (MAX_TESTNET_UNSTABLE_DEPTH_DIFFERENCE, MAX_UNSTABLE_BLOCKS). Monotonicity of the stable height / immutability of stable headers over histories is covered by the invariant work (Spec/Invariant.lean) and compared through the `digest` lines; the f64 bound is tied by correspondence only.",
+        "assumptions": ["threshold changes while an ingestion is paused are outside the modelled domain of the ledger stream (see DESIGN F13)"],
+    },
+    "C04": {
+        "streams": [{"name": "ledger", "quick": 160, "thorough": 1600}],
+        "rule": LEDGER_RULE,
+        "explanation": "theorems: the vector-of-levels the code builds = the per-height (hash, depth) table of the tree; get_stability_count >= c iff the block is buried under >= c blocks and "
+                       ">= c deeper than every competitor; the prefix walk = the property's definition (Spec.buriedPrefix) for every tree with distinct hashes; named tip = last block of that prefix; "
+                       "fork-free corollary (prefix = first H-c+1 blocks); too-large c refused with max = chain length. Spec line `cutat` evaluates the independent definition + ledger at the cut.",
+        "technique": "Lean 4 theorems (mutual induction over the block tree: prefix walk = independent burial definition) + differential correspondence incl. oracle lines for every c",
+        "level_text": "Machine-checked equality of the code's stability-count walk with the property's definition for all trees/c; contents at the cut block are tied to the ledger by C01's theorems and validated by the `cutat` oracle on every generated state.",
+        "level_note": "Trusted: Lean kernel, harness, translator. Hypothesis: block hashes in the tree pairwise distinct (shown necessary by a counterexample in Props/C04.lean).",
+        "assumptions": ["blocks fed through unstable_blocks::push with mock difficulties"],
+    },
+    "C12": {
+        "streams": [{"name": "blk", "quick": 1500, "thorough": 20000}, {"name": "sync", "quick": 160, "thorough": 1600}],
+        "rule": "blk stream: regtest blocks with 1-40 transactions (legacy and segwit) whose header is valid by construction (mined on genesis), validated by BlockValidator::validate_block in their original "
+                "form and under every CVE-2012-2459 mutation per level (len = 2^j*m, m odd >= 3), dup-last, random duplicate, swap, removal, empty, witness- and scriptSig-malleated copies, planted malleated twins "
+                "(same ntxid, different txid) and missing coinbase. The model recomputes the merkle root with its own SHA-256d. Distinct by (tx count, outcome vector). " + SYNC_RULE,
+        "explanation": "theorems (for an arbitrary 2-to-1 hash): accept iff non-empty, coinbase first, merkle root matches, ntxids pairwise distinct, with the code's error precedence; the CVE-2012-2459 family exists at every level "
+                       "(root preserved) and every such mutation is rejected as DuplicateTransactions; validateBody = validateBlockBody given check_merkle_root.",
+        "technique": "Lean 4 theorems over an abstract merkle hash + executable SHA-256d in the model (test vectors by #guard) + differential correspondence with BlockValidator",
+        "level_text": "Machine-checked decision logic and the merkle-duplication lemma for all transaction counts; the model's merkle root is computed by its own SHA-256d and compared with rust-bitcoin on every generated block.",
+        "level_note": "Trusted: Lean kernel, harness. SHA-256 correctness of the model is validated by NIST vectors / mainnet block 170 (#guard) and the differential stream, not proved. txid/ntxid/is_coinbase are given by the library.",
+        "assumptions": ["the check is on normalised txids (compute_ntxid): stricter than 'no shared txid'"],
+    },
+    "C15": {
+        "streams": [{"name": "ledger", "quick": 160, "thorough": 1600}, {"name": "sync", "quick": 80, "thorough": 800}],
+        "rule": LEDGER_RULE,
+        "explanation": "theorems: percentiles = [] or 101 values, non-decreasing, index 0/100 = min/max, nearest-rank on any sorted permutation, order independent; the input is the first <= 10000 cached fee rates "
+                       "newest block first; cache semantics (hit / empty keeps previous / recompute and store).",
+        "technique": "Lean 4 theorems (nearest-rank = algorithm for all inputs; selection and cache semantics) + differential correspondence of bitcoin_get_current_fee_percentiles after every step",
+        "level_text": "Machine-checked for all input lists (no length bound); tie by `q fees` after every op of the ledger and sync streams (fee-paying transactions, forks, upgrades which drop the per-block cache).",
+        "level_note": "Trusted: Lean kernel, harness, translator (NUM_TRANSACTIONS). u32 overflow of p*len needs len > 42,949,672 (> the 10,000 cap: proved unreachable).",
+        "assumptions": [],
+    },
+    "C18": {
+        "streams": [{"name": "tf", "quick": 800, "thorough": 20000}],
+        "rule": "tf stream: for each of the 10 explorer transforms, bodies shaped for the endpoint with whitespace / member order / extra and duplicate members varied, wrong types, negative/float/huge numbers, "
+                "truncated JSON, invalid UTF-8, deep nesting, empty; text bodies (+N, N\\n, leading zeros/space, overflow, sign, letters); statuses 200/404/500/0/201/301/2^40; 0-2 headers. Distinct by the hash of the outcome vector.",
+        "explanation": "theorems: no headers, status kept, body = [] or render(height) with height < 2^64, independent of headers, determined by the extracted path only (member order with distinct keys, other members, "
+                       "whitespace via the parser), text endpoints accept exactly +?[0-9]+ < 2^64, render injective.",
+        "technique": "Lean 4 theorems over an abstract JSON value and a byte-level text parser + differential correspondence with the watchdog's transform_* queries",
+        "level_text": "Machine-checked canonical-form and invariance theorems for every endpoint, status, header list and body; serde_json/UTF-8 decoding enter as a parameter (the parsed value is supplied by the harness).",
+        "level_note": "PARTIAL by design: whitespace-insensitivity and 'never traps' of serde_json::from_str / String::from_utf8 are library behaviour outside the model; exercised by the stream. Trusted: Lean kernel, harness, watchdog::verif_hooks::transform.",
+        "assumptions": ["ParserWF: numbers the parser reports as u64 are < 2^64"],
+    },
+    "C19": {
+        "streams": [{"name": "txc", "quick": 3000, "thorough": 60000}, {"name": "sync", "quick": 160, "thorough": 1600}],
+        "rule": "txc stream: random transactions (0-3 inputs, 0-3 outputs, legacy/segwit, witness stacks, scripts of 0-300 bytes), their exact serialisation and variants: extended by 1-5 bytes, truncated, "
+                "3 single-bit flips, a one-byte length replaced by 3/5/9-byte encodings (incl. 2^32+b), mangled segwit marker/flag, garbage; each fed to consensus::deserialize::<Transaction> (what send_transaction calls) "
+                "and to the Lean decoder; accepted payloads are re-encoded and compared. Distinct by (serialisation hash, outcome vector). " + SYNC_RULE,
+        "explanation": "theorems: decode(encode t ++ r) = (t, r); decodeExact bs = some t -> bs = encode t (64-bit): accept iff the payload is a serialisation; trailing bytes and every strict prefix are rejected; varint canonicity; "
+                       "send_transaction forwards/counts iff guards pass, cycles suffice and the payload is well-formed (Model/Endpoints.callSendTransaction, compared call by call incl. the forwarded bytes).",
+        "technique": "Lean 4 round-trip and canonicity theorems for a byte-level model of rust-bitcoin's transaction codec + differential correspondence (library decoder and send_transaction endpoint)",
+        "level_text": "Machine-checked for all byte strings on 64-bit usize; the 32-bit (wasm32) decoder is modelled too and shown NOT canonical (known finding F14).",
+        "level_note": "Trusted: Lean kernel, harness (recorder hook for forwarded payloads). The inter-canister call itself and its failure handling are not modelled. Native harness: 64-bit usize.",
+        "assumptions": ["payload elements are bytes (< 256)"],
+    },
     "C14": {
         "streams": [{"name": "sync", "quick": 320, "thorough": 3200}],
         "rule": SYNC_RULE,
